@@ -474,6 +474,137 @@ def one_scenario(args):
     return {"name": name, "inconclusive": last, "n": n, "mode": mode}
 
 
+def big_join_scenario(args):
+    """a snapshot large enough that loading it takes a while: 2500 configs of 2 KB, threshold 400. A node joins while clients keep
+    REWRITING keys that are in the snapshot; the entries right behind the snapshot must win over the snapshot's older records."""
+    import http.client
+    import urllib.parse
+    wd0, name, seed = args
+    wd = os.path.join(wd0, name)
+    os.makedirs(wd, exist_ok=True)
+    rnd = random.Random(seed)
+    K, SIZE, THRESH = 2500, 2048, 400
+    res = {"name": name, "n": THRESH, "mode": "join", "quiet": False, "mult": K // THRESH, "compared_items": 0, "violations": [], "steps": [], "snapshot_installs": 0}
+    env = {"RNACOS_RAFT_SNAPSHOT_LOG_SIZE": str(THRESH), "RUST_LOG": "warn,rnacos::raft=info", "RNACOS_HTTP_WORKERS": "4"}
+    n1 = procrig.Node(wd, 1, env=env, auto_init=True)
+    n2 = procrig.Node(wd, 2, env=env, join=n1.grpc_addr, auto_init=False)
+    n3 = procrig.Node(wd, 3, env=env, join=n1.grpc_addr, auto_init=False)
+    values = {}
+    vlock = threading.Lock()
+    stop = threading.Event()
+
+    def publish_range(port, idxs, tag, pad, until=None):
+        c = http.client.HTTPConnection("127.0.0.1", port, timeout=15)
+        for i in idxs:
+            if until is not None and until.is_set():
+                break
+            val = "%s-%d-%s" % (tag, i, pad)
+            body = urllib.parse.urlencode({"dataId": "big%d" % i, "group": GROUP, "content": val})
+            try:
+                c.request("POST", "/nacos/v1/cs/configs", body, {"Content-Type": "application/x-www-form-urlencoded"})
+                r = c.getresponse()
+                ok = r.status == 200 and r.read().strip() == b"true"
+            except (OSError, http.client.HTTPException):
+                c.close()
+                c = http.client.HTTPConnection("127.0.0.1", port, timeout=15)
+                ok = False
+            with vlock:
+                if ok:
+                    values[i] = val
+                else:
+                    values[i] = None        # unknown: judged against the leader only
+            if until is not None:
+                time.sleep(0.03)            # ~100 rewrites/s in total: the joiner can finish an install between two compactions
+    try:
+        n1.start()
+        time.sleep(0.8)
+        n2.start()
+        t0 = time.time()
+        while time.time() - t0 < 30:
+            m = n2.metrics()
+            if m and len((m.get("membership_config") or {}).get("members") or []) == 2:
+                break
+            time.sleep(0.3)
+        else:
+            raise Inconclusive("%s: two-node cluster did not form" % name)
+        pad = "x" * SIZE
+        ths = [threading.Thread(target=publish_range, args=(n1.http_port, range(k, K, 4), "v0", pad), daemon=True) for k in range(4)]
+        t0 = time.time()
+        [t.start() for t in ths]
+        [t.join(120) for t in ths]
+        res["steps"].append({"step": "history", "keys": K, "value_bytes": SIZE, "seconds": round(time.time() - t0, 1), "leader_compactions": max([int(p.split("_")[1]) for p in os.listdir(n1.dir) if p.startswith("snapshot_") and p.split("_")[1].isdigit()] or [0])})
+        if res["steps"][-1]["leader_compactions"] < 1:
+            raise Inconclusive("%s: the leader did not compact" % name)
+        # rewriters of keys that are in the snapshot, while the node joins
+        rw = [threading.Thread(target=publish_range, args=(n1.http_port, [rnd.randrange(K) for _ in range(100000)], "u%d" % j, "y" * 64, stop), daemon=True) for j in range(3)]
+        [t.start() for t in rw]
+        time.sleep(0.3)
+        log_off = 0
+        n3.start(wait=True, timeout=40)
+        t_join = time.time()
+        installs = 0
+        while time.time() - t_join < B:
+            try:
+                with open(n3.log_path, "rb") as f:
+                    f.seek(log_off)
+                    installs = f.read().count(b"filestore create_snapshot")
+            except OSError:
+                installs = 0
+            fm, lm = n3.metrics(), n1.metrics()
+            if installs and fm and lm and fm.get("last_log_index", 0) >= lm.get("last_log_index", 0) - 20:
+                break
+            time.sleep(0.2)
+        # keep rewriting a little longer: entries arriving right behind the install are the interesting ones
+        time.sleep(1.5)
+        stop.set()
+        [t.join(20) for t in rw]
+        res["snapshot_installs"] = installs
+        res["steps"].append({"step": "joined", "seconds": round(time.time() - t_join, 1), "snapshot_installs": installs, "rewrites_acknowledged": sum(1 for v in values.values() if v and v.startswith("u"))})
+        if not installs:
+            raise Inconclusive("%s: no snapshot install seen in the joiner's log" % name)
+        # quiescence: same applied index, then every key on both nodes
+        t1 = time.time()
+        while time.time() - t1 < B:
+            fm, lm = n3.metrics() or {}, n1.metrics() or {}
+            if fm.get("last_applied") and fm.get("last_applied") == lm.get("last_applied"):
+                break
+            time.sleep(0.3)
+        def read_all(nd):
+            c = http.client.HTTPConnection("127.0.0.1", nd.http_port, timeout=15)
+            outv = {}
+            for i in range(K):
+                c.request("GET", "/nacos/v1/cs/configs?dataId=big%d&group=%s" % (i, GROUP))
+                r = c.getresponse()
+                b = r.read()
+                outv[i] = b.decode("utf-8", "replace") if r.status == 200 else "<%d>" % r.status
+            return outv
+        deadline = time.time() + B
+        while True:
+            lv, fv = read_all(n1), read_all(n3)
+            diff = [i for i in range(K) if lv[i] != fv[i]]
+            res["compared_items"] += K
+            if not diff or time.time() > deadline:
+                break
+            time.sleep(1.0)
+        res["steps"].append({"step": "compared", "keys": K, "different": len(diff), "leader_metrics": n1.metrics(), "follower_metrics": n3.metrics()})
+        if diff:
+            i = diff[0]
+            res["violations"].append(("join/data-differs-after-snapshot-install/configs",
+                                      {"scenario": name, "variant": "big snapshot, keys of the snapshot rewritten during the join", "keys": K, "different_keys": len(diff), "example_key": "big%d" % i,
+                                       "leader": lv[i][:40], "follower": fv[i][:40], "last_acknowledged_value": (values.get(i) or "")[:40], "snapshot_installs": installs,
+                                       "leader_metrics": n1.metrics(), "follower_metrics": n3.metrics()}))
+        return res
+    except Inconclusive as e:
+        return {"name": name, "inconclusive": str(e), "n": THRESH, "mode": "join"}
+    except HTTP_ERR as e:
+        return {"name": name, "inconclusive": "%s: %r" % (name, e), "n": THRESH, "mode": "join"}
+    finally:
+        stop.set()
+        for nd in (n1, n2, n3):
+            nd.kill()
+        shutil.rmtree(wd, ignore_errors=True)
+
+
 RULE = ("per scenario: real rnacos processes, snapshot threshold n in {10,25,60}; >= 4n (8n) raft entries (configs in 3 namespaces with updates/removes/types, 2 namespaces, "
         "3 users) so that >= 3 compactions happened on the leader; follower started late (join) or killed before and started after the history (rejoin); an InstallSnapshot "
         "stream must be visible in the follower's own log; differential leader vs follower through HTTP within 30 s, again after the follower's restart. "
@@ -503,8 +634,9 @@ def run(tier, seed):
                             i += 1
             rnd.shuffle(jobs)
             par = 6
-        with ThreadPoolExecutor(max_workers=par) as ex:
-            results = list(ex.map(one_scenario, jobs))
+        with ThreadPoolExecutor(max_workers=par + 1) as ex:
+            bigf = [ex.submit(big_join_scenario, (wd, "big%d" % i, seed * 7 + i)) for i in range(1 if tier == "quick" else 3)]
+            results = list(ex.map(one_scenario, jobs)) + [f.result() for f in bigf]
         for r in results:
             if "inconclusive" in r:
                 out.extra.setdefault("inconclusive_subruns", []).append("%s: %s" % (r["name"], (r["inconclusive"] or "")[:300]))
